@@ -18,9 +18,23 @@ Oracles (all independent of the code under test, only closed-form supports of bo
   A failure is only reported when the code's answer contradicts a sound bound by more than 1e-6*L; everything else that is
   not certified to hold is counted as undecided.
 
-Uninitialised rows: gjk_distance_jolt allocates its simplex with np.empty and returns it without the number of valid rows.
-To keep the run deterministic the harness primes numpy's small-block cache so that the uninitialised rows read as 0.0 (what
-a fresh page contains); a second, diagnostic GJK call primed with NaN counts the rows GJK actually wrote (`valid_rows`).
+Obligations (contract `epa.epa[<A>,<B>]`), checked whenever GJK reports an overlap (distance 0):
+  success_on_polytopes  box / hull / mesh pairs: epa returns success=True (AssertionError of the face-capacity assert and
+                        success=False count as no success); no_exception: any other exception on such a pair
+  mtv_minimal           |mtv| <= penetration depth + 1e-6*L   (exact depth for polytopes, upper bound otherwise)
+  mtv_separates         penetration depth of A and B + mtv <= 1e-6*L   (exact / certified lower bound)
+  mtv_touching          dist(A, B + mtv) <= 1e-6*L   (certified lower bound of the gap)
+  terminates            epa returns (python-level loops: 10 s, repeated once with 30 s; native loops: 60 s in a worker)
+L = max(1, 2*size of either collider, distance of the positions).
+
+Uninitialised rows: gjk_distance_jolt allocates its simplex with np.empty and returns it without the number of valid rows, so
+the input of epa (and with it the result of the composed call) depends on what the allocator hands out.  To keep the run
+deterministic the harness primes numpy's small-block cache before every GJK call and evaluates two memory contents:
+  'zero'  - rows that GJK does not write read as 0.0 (fresh pages);
+  'stale' - they hold what a preceding gjk_distance_jolt call on a fixed, unrelated reference pair left in the cache (the
+            situation of a loop over collision pairs); epa is only run again when that changes the simplex.
+A diagnostic third GJK call primed with NaN counts the rows GJK actually wrote (`gjk_rows_written` in the failure input; rows
+that were written but are stale duplicates of other rows still count as written).
 
 The helpers in this file are shared with bounded/c08.py (MPR), which imports them from here.
 """
@@ -73,7 +87,7 @@ def _limited(fn, seconds):
         signal.signal(signal.SIGALRM, old)
 
 
-def with_timeout(fn, seconds=20.0, retry=90.0):
+def with_timeout(fn, seconds=10.0, retry=30.0):
     """run fn() with a wall-clock limit (python-level loops of the library can spin forever).  A first timeout may be a JIT
     compilation on a loaded machine, so the call is repeated once with a generous limit before CaseTimeout is raised."""
     try:
@@ -107,38 +121,49 @@ def warm_up(use_epa=True, use_mpr=True):
 
 # ------------------------------------------------------------------------------------------------ pool with deadline
 _POOL = {}
+PHASES = {0: "harness", 1: "gjk", 2: "epa", 3: "mpr"}
+HANG_SECONDS = 60.0
 
 
 def _init_slot(counter, slots):
     with counter.get_lock():
-        _POOL["slot"] = counter.value % (len(slots) // 2)
+        _POOL["slot"] = counter.value % (len(slots) // 3)
         counter.value += 1
     _POOL["slots"] = slots
+
+
+def set_phase(code):
+    """tell the parent which call the worker is in (a native loop that never returns cannot be interrupted by SIGALRM)"""
+    s, sl = _POOL.get("slot"), _POOL.get("slots")
+    if sl is not None:
+        sl[3 * s + 2] = code
 
 
 def _tracked(case):
     s, sl = _POOL.get("slot"), _POOL.get("slots")
     if sl is not None:
-        sl[2 * s + 1] = time.time()
-        sl[2 * s] = case["id"]
+        sl[3 * s + 1] = time.time()
+        sl[3 * s + 2] = 0
+        sl[3 * s] = case["id"]
     try:
         return _POOL["fn"](case)
     finally:
         if sl is not None:
-            sl[2 * s] = -1.0
+            sl[3 * s] = -1.0
 
 
 def run_pool(fn, cases, jobs, deadline):
     """parallel map that never turns slowness into a finding: results that are not there at the deadline are reported as
-    `incomplete` (count), a case that occupies a worker for more than 60 s is reported as hung (native code that does not
-    return; python-level loops are already limited by with_timeout)."""
+    `incomplete` (count); a case that occupies a worker for more than HANG_SECONDS is reported as hung together with the
+    phase it is in (native code that does not return; python-level loops are already limited by with_timeout, whose two
+    attempts end before HANG_SECONDS)."""
     import multiprocessing as mp
     ctx = mp.get_context("fork")
     jobs = min(jobs, max(1, len(cases)))
-    slots = ctx.Array("d", [-1.0] * (2 * jobs), lock=False)
+    slots = ctx.Array("d", [-1.0] * (3 * jobs), lock=False)
     counter = ctx.Value("i", 0)
     _POOL["fn"] = fn
-    results, hung = [], set()
+    results, hung = [], {}
     last = time.time()
     with ctx.Pool(jobs, initializer=_init_slot, initargs=(counter, slots)) as pool:
         it = pool.imap_unordered(_tracked, cases, chunksize=1)
@@ -149,15 +174,15 @@ def run_pool(fn, cases, jobs, deadline):
             except mp.TimeoutError:
                 now = time.time()
                 for j in range(jobs):
-                    if slots[2 * j] >= 0 and now - slots[2 * j + 1] > 60.0:
-                        hung.add(int(slots[2 * j]))
+                    if slots[3 * j] >= 0 and now - slots[3 * j + 1] > HANG_SECONDS:
+                        hung[int(slots[3 * j])] = PHASES.get(int(slots[3 * j + 2]), "?")
                 if hung and now - last > 20.0:
                     break
             except StopIteration:
                 break
         pool.terminate()
     results.sort(key=lambda r: r["id"])
-    return results, sorted(hung)
+    return results, sorted(hung.items())
 
 
 # ------------------------------------------------------------------------------------------------ scenes
@@ -339,7 +364,7 @@ def certificate(A, B, extra=None, nfib=192, nref=4, polish=True):
 
 def inner_radius(col, x):
     """closed-form LOWER bound of the distance of x to the complement of the collider (>= 0 iff x is certified inside);
-    flat shapes: 0 when x lies in the shape (within 1e-12 of its plane), negative otherwise"""
+    flat shapes: 0 when x lies in the shape (within rounding, 1e-12 relative, of its plane), negative otherwise"""
     k, p = col["kind"], col["par"]
     x = np.asarray(x, dtype=float)
     if k == "sphere":
@@ -369,10 +394,10 @@ def inner_radius(col, x):
         return (1.0 - math.sqrt(float(np.sum((y / p["radii"]) ** 2)))) * float(np.min(p["radii"]))
     if k == "disk":
         inpl = p["r"] - math.hypot(y[0], y[1])
-        return min(0.0, inpl) - max(0.0, abs(y[2]) - 1e-12)
+        return min(0.0, inpl) - max(0.0, abs(y[2]) - 1e-12 * (1.0 + float(np.max(np.abs(T[:3, 3]))) + p["r"]))
     if k == "ellipse":
         inpl = (1.0 - math.sqrt((y[0] / p["radii"][0]) ** 2 + (y[1] / p["radii"][1]) ** 2)) * float(np.min(p["radii"]))
-        return min(0.0, inpl) - max(0.0, abs(y[2]) - 1e-12)
+        return min(0.0, inpl) - max(0.0, abs(y[2]) - 1e-12 * (1.0 + float(np.max(np.abs(T[:3, 3]))) + float(np.max(p["radii"]))))
     raise ValueError(k)
 
 
@@ -618,6 +643,7 @@ def run_gjk(A, B, memory):
     'stale': whatever a preceding gjk_distance_jolt call on a fixed, unrelated reference pair left in numpy's block cache
              (the situation of a loop over collision pairs)"""
     from distance3d import gjk
+    set_phase(1)
     if memory == "nan":
         prime(np.nan)
     else:
@@ -627,7 +653,9 @@ def run_gjk(A, B, memory):
                 _REF.append(C.make_collider("box", C.pose(np.eye(3), np.array([0.3, 0.2, 0.1])), 1.0)["obj"])
                 _REF.append(C.make_collider("hull", C.pose(C.CUBE[3], np.zeros(3)), 1.0)["obj"])
             gjk.gjk_distance_jolt(_REF[0], _REF[1])
-    return gjk.gjk_distance_jolt(A["obj"], B["obj"])
+    r = gjk.gjk_distance_jolt(A["obj"], B["obj"])
+    set_phase(0)
+    return r
 
 
 def eval_case(case):
@@ -702,14 +730,17 @@ def check_epa(epa, A, B, orc, poly, simplex, tol, contract, inp, out, memory):
         if ob not in out["undecided"]:
             out["undecided"].append(ob)
 
+    set_phase(2)
     try:
         mtv, faces, success = with_timeout(lambda: epa.epa(simplex.copy(), A["obj"], B["obj"]))
         exc = None
     except CaseTimeout:
-        fail("terminates", "epa did not return within 20 s")
+        set_phase(0)
+        fail("terminates", "epa did not return (10 s, repeated with 30 s)")
         return "epa_timeout"
     except Exception as e:
         exc, success, mtv = e, False, None
+    set_phase(0)
     info["success"] = bool(success)
     if exc is not None or not success:
         if poly:
@@ -783,10 +814,14 @@ def main():
     failures, samples, status, status_stale, undec = [], [], {}, {}, {}
     nontrivial = set()
     succ_by_pair = {}
-    for i in hung:
+    hung_elsewhere = []
+    for i, phase in hung:
         c = cases[i]
-        failures.append(dict(contract="epa.epa[%s,%s]" % (c["A"]["kind"], c["B"]["kind"]), obligation="terminates",
-                             detail="the case occupied a worker for more than 60 s (native code does not return)", input=dict(case=c)))
+        if phase == "epa":
+            failures.append(dict(contract="epa.epa[%s,%s]" % (c["A"]["kind"], c["B"]["kind"]), obligation="terminates",
+                                 detail="epa occupied a worker for more than %g s (native code does not return)" % HANG_SECONDS, input=dict(case=c)))
+        else:                                                  # e.g. the mesh support function inside GJK: not C07's call
+            hung_elsewhere.append(dict(phase=phase, case=c))
     by_id = {c["id"]: c for c in cases}
     runs = only_ub = 0
     for r in res:
@@ -834,7 +869,7 @@ def main():
            "randhull = gaussian vertex hulls with 8..40 vertices; every scene with memory 'zero' (rows of the simplex that GJK does not write read as 0.0) "
            "and, when that changes the simplex, 'stale' (they hold what a preceding GJK call on a fixed reference pair left behind)" % (
                len(cases), C.COLLIDER_TYPES, fams),
-           scenes=len(res), incomplete=len(cases) - len(res), undecided=sum(undec.values()), undecided_by_obligation=undec, status=status, status_stale_runs=status_stale,
+           scenes=len(res), incomplete=len(cases) - len(res), hung_outside_epa=hung_elsewhere, undecided=sum(undec.values()), undecided_by_obligation=undec, status=status, status_stale_runs=status_stale,
            failure_keys=keys, failures_by_obligation_rows_memory=by_rows, minimal_passed_against_upper_bound_only=only_ub,
            success_by_pair={k: v for k, v in sorted(succ_by_pair.items())}, priming_effective=primed,
            library=os.path.dirname(distance3d.__file__), tier=a.tier, seed=a.seed)
